@@ -156,6 +156,9 @@ class Token:
     value: Any
     line: int
     column: int
+    # A line terminator (LF, CR, LS, PS; also inside a comment) lies between the
+    # previous token and this one
+    newline_before: bool = False
 
     def __repr__(self) -> str:
         if self.value is not None:
